@@ -598,11 +598,23 @@ func c20LeakCheck(what, desc string, done bool, r *mc.Result) mc.Verdict {
 		v.Violation, v.Key = v.Sample+": the call never returned", "C20/leak/"+what+"/never-returned"
 		return v
 	}
-	var blocked []string
+	var blocked, awake []string
 	for _, b := range r.Blocked {
 		if b.Class == "blocked" {
 			blocked = append(blocked, fmt.Sprintf("g%d at %s", b.G, b.Kind))
 		}
+		if b.Class == "sleeping" {
+			// long after the call returned and its context ended, a goroutine of the call is still at work
+			// (waiting on a timer to go round once more)
+			awake = append(awake, fmt.Sprintf("g%d at %s", b.G, b.Kind))
+		}
+	}
+	if len(blocked) == 0 && len(awake) > 0 {
+		sort.Strings(awake)
+		v.Outcome = what + " leaked"
+		v.Violation = fmt.Sprintf("%s %s: %d goroutine(s) still running (on a timer) long after the call returned and all timeouts passed: %s", what, desc, len(awake), strings.Join(awake, ", "))
+		v.Key = "C20/leak/" + what + "/goroutine-never-ends"
+		return v
 	}
 	if len(blocked) > 0 {
 		sort.Strings(blocked)
@@ -619,7 +631,7 @@ func c20UnblindBody(e *c05Env, ver string) {
 		v = spec.DataVersionDeneb
 	}
 	*e = c05Env{version: v, blinded: true, auction: "winner2", acct: newAccount("W", "proposer", 7), graffiti: "none", sign: "ok", submit: "ok"}
-	behs := []string{"full", "err3", "nildata", "never"}
+	behs := []string{"full", "err3", "nildata", "never", "err503"}
 	for i := 0; i < 3; i++ {
 		r := &c05Relay{idx: i, env: e, beh: behs[mc.Choose(len(behs))]}
 		if r.beh == "full" || r.beh == "nildata" {
